@@ -4,6 +4,8 @@ HERE = os.path.dirname(os.path.abspath(__file__))
 VERIF = os.path.dirname(HERE)
 props = [json.loads(l) for l in open(os.path.join(VERIF, 'properties.jsonl'))]
 CLAIMS = {
+    'C01': 'PARTIAL -- the buffered (non-splice) relay only: one direction of copy_half, executed with its real tokio::select! lowering, writes to the destination exactly the bytes read from the source, in order, flushed, for any source of <= 6 bytes delivered in <= 2 (3) pieces and any buffer size 1..8; copy_bidi forwards and flushes the bytes the handshake\'s BufReader had already buffered on either side before it takes the buffered wrappers apart; the inline frame channel is built on the buffered stream (no read-ahead dropped). NOT decided: the splice(2) path, listener x connector pairings as such, isolation between connections, concurrency of the two directions',
+    'C04': 'PARTIAL -- buffered mode only: a direction finishes Ok only at end of stream with everything delivered, end of stream is passed on (shutdown of the write side) after the data and nothing is written after it; copy_bidi reports the tunnel finished only after both directions ended, recording ClientShutdown and ServerShutdown, while an unfinished direction keeps being polled. NOT decided: "identically in both I/O modes" (splice path), FIN/RST on real sockets, promptness',
     'C02': 'the dispatcher opens an upstream iff the first-match result is an allowing rule whose connector has the feature (all symbolic outcome combinations of one request), Rule::evaluate\'s verdict mapping, the first-match closure, and cidr_match feeding the cidr crate exactly the parsed address',
     'C03': 'composition round trips (decoder run on the encoder\'s output inside one query) for the RPFM address attribute, SOCKS5-UDP header and SOCKS4/4a/5 request writer->reader, over all destinations (domain <= 300 bytes of 1-/2-byte UTF-8, all IPv4/IPv6, all ports), incl. mandatory refusal of unrepresentable ones',
     'C05': 'panic-site unreachability (MIR assert terminators, library preconditions, unwrap/expect, explicit panics) for every encodable peer-fed decoder: fragment reassembly, RPFM frames, stream frame reader, SOCKS-UDP, SOCKS request/reply readers',
@@ -12,7 +14,7 @@ CLAIMS = {
     'C11': 'functional laws of fragmentation/reassembly: one inductive step from any state satisfying the representation invariant, producer step law, timer, malformed/inconsistent headers',
     'C12': 'StreamFrameReader::read from an arbitrary carry-over state under any segmentation into <= K reads; truncation => error for the SOCKS readers; readers consume exactly their message',
     'C13': 'is_timeout against a symbolic clock, activity resets, per-connection period plumbing (create_context, idle_timeout, set_idle_timeout), start-up wiring of timeouts.idle, the ticker arm of copy_bidi',
-    'C16': 'dispatcher lifecycle order (state sequence, exactly one terminal event, used connector recorded before use), ContextRefOps on_connect/on_error/enqueue bookkeeping, set_state appends exactly one entry, Drop queues the final record exactly once, id allocation, counters',
+    'C16': 'per-direction byte counter == bytes relayed by the buffered copy_half; dispatcher lifecycle order (state sequence, exactly one terminal event, used connector recorded before use), ContextRefOps on_connect/on_error/enqueue bookkeeping, set_state appends exactly one entry, Drop queues the final record exactly once, id allocation, counters',
     'C08': 'per builtin operator (unary, integer, boolean, comparison, index, to_string/to_integer): for exactly the operand types its own signature accepts -- operands being literals, let-bound names, 2-element arrays or let-bound arrays, evaluated through the real type_of/real_type_of/value_of/real_value_of -- call reaches no panic site, returns a value of the promised type and does not fail (division by zero/overflow/non-numeric string/out-of-range index excepted); the checker itself never panics on any argument count (0..3) of a nameable function or any tuple index; request.* accessors declare the type of the value they hand out; composed programs beyond one operator application are outside the bound',
     'C18': 'panic-site unreachability in the hand-written configuration loaders (connectors/listeners from_value + from_config, rules::from_config, Rule::init, Filter::validate, load-balancer init/verify, socks connector init) for arbitrary YAML shapes; an accepted load balancer has only defined members, carries its compiled hashBy expression, and is not reachable from itself in any member graph of two balancers and one upstream (walk terminates); candidates confirmed against the real loader',
     'C15': 'set_rules: accepted iff every rule compiles and names an existing upstream; on rejection the previous list object is untouched; on acceptance the stored list is exactly the posted rules resolved to the upstreams they name',
@@ -36,8 +38,8 @@ for pid, txt in CLAIMS.items():
         'level_note': 'trusted: the rustc MIR dump of the working tree, the contract library for std/bytes/tokio callees (mirsmt/contracts*.py), z3; awaits are assumed to complete (no cancellation / interleaving); bounds per target are in the evidence file',
     })
 NA = {
-    'C01': 'byte-stream fidelity of the relay: copy_half is a tokio select! over socket halves and splice(2) through a kernel pipe; no synchronous unit whose inputs can be made symbolic (Kani ran out of memory on an 8-byte async read; the MIR engine has no semantics for select!, wakers or the kernel)',
-    'C04': 'EOF/abort relay: the observable is FIN/RST ordering on real sockets and fd ownership in the splice path -- kernel behaviour, not program values',
+    'C01': 'superseded: partial check built (buffered relay + hand-over)',
+    'C04': 'superseded: partial check built (buffered mode)',
     'C09': 'parser grammar/precedence: ~25 mutually recursive nom combinator closures over &str; Kani 0.68 hits two internal compiler errors on it and the MIR engine would need nom\'s combinators as contracts, i.e. a re-specification of the grammar rather than the real code',
     'C10': 'UDP session isolation: session creation/lookup/reply addressing live in socket-driven accept loops and mpsc channels across tasks; only the per-datagram header codecs are sequential and those are claimed under C03/C05',
     'C14': 'management API never blocks the data plane: a lock-order/liveness property over >= 3 concurrently scheduled tasks; Kani has no concurrency and the MIR engine is sequential',
